@@ -130,6 +130,49 @@ def run_stalls(ctx, model, out):
         s.stop()
 
 
+def run_linger(ctx, out, model):
+    """lingering close: the response went out with Connection: close, the server has shut its side down and waits for the client's FIN.  A client
+    that never closes must not keep the connection (and its slot under server.max-connections) for ever: the sweep releases it after the linger time"""
+    _, mo, _ = vlib.run_lines(model, ["W c %d %d %d" % (KA, RD, WR)])
+    k = int(mo[0])
+    if k > 12:
+        out["linger"] = dict(model_sweeps=k, skipped="linger time above what this scenario waits for"); return
+    s = srv.Server(ctx, "linger", CONF % (KA, RD, WR, 'server.max-connections = 4\n'), files={"/small.txt": b"small-file\n"}, modules=[]).start()
+    try:
+        held = []
+        for _ in range(4):
+            so = socket.socket(); so.settimeout(3.0); so.connect(("127.0.0.1", s.port))
+            so.sendall(b"GET /small.txt HTTP/1.1\r\nHost: h\r\nConnection: close\r\n\r\n")
+            d = b""
+            try:
+                while True:
+                    x = so.recv(4096)
+                    if not x: break
+                    d += x
+            except OSError: pass
+            held.append(so)                      # response read to the server's FIN; the client does not close
+        t0 = time.time()
+        pr = socket.socket(); pr.settimeout(0.5); pr.connect(("127.0.0.1", s.port)); pr.sendall(b"GET /small.txt HTTP/1.1\r\nHost: h\r\nConnection: close\r\n\r\n")
+        got = None; d = b""
+        while time.time() - t0 < k + 7.0:
+            try:
+                x = pr.recv(4096)
+                if x: d += x
+                if b"small-file" in d: got = time.time() - t0; break
+                if not x: break
+            except socket.timeout: continue
+            except OSError: break
+        out["linger"] = dict(model_sweeps=k, probe_answered_after=got)
+        if got is None:
+            out["viol"].append(("four clients read their complete 'Connection: close' responses and never closed; %.0f s later (linger time: model releases at sweep %d) their "
+                                "connections still hold all of server.max-connections = 4 and a new client is not served" % (k + 7.0, k), "linger-never-released"))
+        for so in held + [pr]:
+            try: so.close()
+            except OSError: pass
+    finally:
+        s.stop()
+
+
 def run_admission(ctx, out):
     p2 = srv.free_port()
     s = srv.Server(ctx, "adm", CONF % (KA, RD, WR, 'server.max-connections = 6\n$SERVER["socket"] == "127.0.0.1:%d" { }\n' % p2), files={"/small.txt": b"small-file\n"}, modules=[]).start()
@@ -212,28 +255,28 @@ def run(ctx):
     ok = ctx.prove()
     model = vlib.model_driver("C13")
     srv.build_server(False)
-    out = dict(viol=[], stalls={}, limits={}, admission={}, graceful={})
+    out = dict(viol=[], stalls={}, limits={}, admission={}, graceful={}, linger={})
     ths = [threading.Thread(target=run_stalls, args=(ctx, model, out)), threading.Thread(target=run_admission, args=(ctx, out)), threading.Thread(target=run_graceful, args=(ctx, out))]
     errs = []
     def guard(t):
         try: t()
         except Exception as e: errs.append(repr(e))
-    ths = [threading.Thread(target=guard, args=(f,)) for f in (lambda: run_stalls(ctx, model, out), lambda: run_admission(ctx, out), lambda: run_graceful(ctx, out))]
+    ths = [threading.Thread(target=guard, args=(f,)) for f in (lambda: run_stalls(ctx, model, out), lambda: run_admission(ctx, out), lambda: run_graceful(ctx, out), lambda: run_linger(ctx, out, model))]
     for t in ths: t.start()
     for t in ths: t.join()
     found = False
     for e in errs:
         ctx.violate("c13-harness", "C13 harness error: %s" % e, dict(kind="harness", error=e), no_input=True); found = True
     for why, key in out["viol"]:
-        ctx.violate("c13:" + key, "C13 fails on the implementation: %s" % why, dict(kind="monitor", scenario=key, why=why, measurements={k: out[k] for k in ("stalls", "limits", "admission", "graceful")})); found = True
+        ctx.violate("c13:" + key, "C13 fails on the implementation: %s" % why, dict(kind="monitor", scenario=key, why=why, measurements={k: out[k] for k in ("stalls", "limits", "admission", "graceful", "linger")})); found = True
     ctx.cov["correspondence"]["timeouts"] = out["stalls"]; ctx.cov["correspondence"]["limits"] = out["limits"]
-    ctx.cov["correspondence"]["admission"] = out["admission"]; ctx.cov["correspondence"]["graceful"] = out["graceful"]
+    ctx.cov["correspondence"]["admission"] = out["admission"]; ctx.cov["correspondence"]["graceful"] = out["graceful"]; ctx.cov["correspondence"]["lingering-close"] = out["linger"]
     n = len(out["stalls"]) + len(out["limits"]) + 2
     ctx.cov["evaluations"] += n; ctx.cov["distinct_nontrivial"] += n
     ctx.cov["rule"] = ("real time, max-keep-alive-idle 2 s / max-read-idle 3 s / max-write-idle 5 s: ten stalled clients (silent after connect, inside the request line, inside the head, "
                        "inside a Content-Length body, inside a chunked body, idle on keep-alive, not reading an 8 MiB response; HTTP/2 idle after SETTINGS, HTTP/2 body without "
                        "END_STREAM, HTTP/2 response not read) each measured against the model's sweep count; 5 KB head (431), 100 KB bodies with Content-Length and chunked (413); "
-                       "server.max-connections 6 with all slots held and four clients knocking on two listening sockets; SIGINT during an 8 MiB download")
+                       "server.max-connections 6 with all slots held and four clients knocking on two listening sockets; four clients that never close after a 'Connection: close' response, holding all of server.max-connections = 4, against the model's linger sweep; SIGINT during an 8 MiB download")
     if not ok and not found:
         ctx.proof_broken_violation()
 
